@@ -176,6 +176,7 @@ fn parse_req(rq: &str) -> Option<Req> {
 fn answer<M: MemoizerKind>(
     bundle: &RawBundle<FluentResource, M>,
     rq: &Req,
+    shared: Option<&mut Vec<FluentError>>,
 ) -> String {
     let msg = match bundle.get_message(&rq.id) {
         Some(m) => m,
@@ -198,6 +199,24 @@ fn answer<M: MemoizerKind>(
         }
         a
     });
+    if let Some(sh) = shared {
+        // C08 (ev=shared): the caller re-uses ONE error list for the whole history; a call may only append
+        let before: Vec<FluentError> = sh.clone();
+        let t = bundle.format_pattern(pattern, args.as_ref(), sh).into_owned();
+        let mid: Vec<FluentError> = sh.clone();
+        let mut w = String::new();
+        let _ = bundle.write_pattern(&mut w, pattern, args.as_ref(), sh);
+        if mid.len() < before.len() || mid[..before.len()] != before[..] || sh.len() < mid.len() || sh[..mid.len()] != mid[..] {
+            return "ERRLIST-PREFIX-CHANGED".into();
+        }
+        return format!(
+            "T {} {} W {} {}",
+            hex_enc(t.as_bytes()),
+            errs_str(&mid[before.len()..]),
+            hex_enc(w.as_bytes()),
+            errs_str(&sh[mid.len()..])
+        );
+    }
     let mut e1 = vec![];
     let t = bundle.format_pattern(pattern, args.as_ref(), &mut e1);
     let mut e2 = vec![];
@@ -298,7 +317,7 @@ fn run_one(payload: &str) -> String {
                             barrier.wait();
                             for k in 0..n {
                                 let i = (k + t * 3) % n;
-                                out[i] = answer(b, &reqs[i]);
+                                out[i] = answer(b, &reqs[i], None);
                             }
                             out
                         })
@@ -319,7 +338,8 @@ fn run_one(payload: &str) -> String {
             }
             outs
         } else {
-            reqs.iter().map(|r| answer(&b, r)).collect()
+            let mut shared: Option<Vec<FluentError>> = if kv(cfg, "ev") == "shared" { Some(vec![]) } else { None };
+            reqs.iter().map(|r| answer(&b, r, shared.as_mut())).collect()
         }
     } else {
         let mut b: RawBundle<FluentResource, intl_memoizer::IntlLangMemoizer> =
@@ -327,7 +347,8 @@ fn run_one(payload: &str) -> String {
         if configure(&mut b, cfg, ress, fns).is_none() {
             return "bad-case".into();
         }
-        reqs.iter().map(|r| answer(&b, r)).collect()
+        let mut shared: Option<Vec<FluentError>> = if kv(cfg, "ev") == "shared" { Some(vec![]) } else { None };
+        reqs.iter().map(|r| answer(&b, r, shared.as_mut())).collect()
     };
     outs.join(";")
 }
